@@ -39,10 +39,9 @@ class TunerError(Exception):
     pass
 
 
-def routing(c1: str, c2: str, n1: int, n2: int, perm: int, fail1: bool, fail2: bool, order: List[bool]) -> bool:
+def routing(pair: int, n1: int, n2: int, perm: int, fail1: bool, fail2: bool, order: List[bool]) -> bool:
     """
-    pre: 1 <= len(c1) <= B('CL') and 1 <= len(c2) <= B('CL') and all(ch in B('ALPHA') for ch in c1 + c2) and c1 != c2
-    pre: 1 <= n1 <= 2 and 1 <= n2 <= 2 and 0 <= perm < 6 and len(order) == 4
+    pre: 0 <= pair < len(B('PAIRS')) and 1 <= n1 <= 2 and 1 <= n2 <= 2 and perm in B('PERMS') and len(order) == 4
     post: _
     """
     from playback.studio.studio import PlaybackStudio
@@ -50,11 +49,32 @@ def routing(c1: str, c2: str, n1: int, n2: int, perm: int, fail1: bool, fail2: b
     from playback.studio.equalizer import EqualityStatus, ComparatorResult
     from playback.studio.recordings_lookup import RecordingLookupProperties
     ctx.begin()
+    # the two category texts come from a list of (prefix-related and unrelated) pairs, concrete by fork: grouping and
+    # sorting symbolic texts costs thousands of solver queries per path
+    c1, c2 = B('PAIRS')[ctx.pick(pair, range(len(B('PAIRS'))))]
     n1 = ctx.pick(n1, (1, 2))
     n2 = ctx.pick(n2, (1, 2))
-    perm = ctx.pick(perm, range(6))
+    perm = ctx.pick(perm, B('PERMS'))
     kind = ctx.S('cassette')
     explicit = bool(ctx.S('explicit'))
+    if not explicit and perm != B('PERMS')[0]:
+        return ctx.done(True)            # the permutation only exists for explicit id lists
+    fail1, fail2 = (True if fail1 else False), (True if fail2 else False)
+    if fail1 and fail2:
+        return ctx.done(True)
+    with ctx.untraced():
+        ok, marks = _routing(c1, c2, n1, n2, perm, fail1, fail2, order, kind, explicit)
+    for m in marks:
+        ctx.mark(m)
+    return ctx.done(ok, 'interleaved')
+
+
+def _routing(c1, c2, n1, n2, perm, fail1, fail2, order, kind, explicit):
+    from playback.studio.studio import PlaybackStudio
+    from playback.studio.equalizer_tuning import EqualizerTuner, EqualizerTuning
+    from playback.studio.equalizer import EqualityStatus, ComparatorResult
+    from playback.studio.recordings_lookup import RecordingLookupProperties
+    marks = []
     r = rigm.build(kind)
     cas = r.cassette
     tr = r.tr
@@ -112,10 +132,17 @@ def routing(c1: str, c2: str, n1: int, n2: int, perm: int, fail1: bool, fail2: b
         else:
             gens[c] = iter(v)
             got[c] = []
-    for first_one in order:
+    for idx in range(4):
         live = [c for c in cats if c in gens]
         if not live:
             break
+        if len(live) == 1:
+            first_one = True
+        else:
+            with ctx.resumed():
+                first_one = True if order[idx] else False
+            if not first_one:
+                marks.append('interleaved')
         c = live[0] if (first_one or len(live) == 1) else live[1]
         try:
             got[c].append(next(gens[c]))
@@ -129,7 +156,7 @@ def routing(c1: str, c2: str, n1: int, n2: int, perm: int, fail1: bool, fail2: b
         if failing:
             ok = ok and isinstance(got.get(c), TunerError)
             ok = ok and not any(j[0] == 'play' and j[1] == c for j in journal)
-            ctx.mark('failing-tuner')
+            marks.append('failing-tuner')
         else:
             comps = got.get(c)
             ok = ok and isinstance(comps, list) and sorted(x.recording_id for x in comps) == sorted(mine)
@@ -140,19 +167,19 @@ def routing(c1: str, c2: str, n1: int, n2: int, perm: int, fail1: bool, fail2: b
     # nothing was played under a foreign category's function
     ok = ok and all(any(cc == j[1] and rid == j[2] for cc, rid in saved) for j in journal if j[0] == 'play')
     if c1.startswith(c2) or c2.startswith(c1):
-        ctx.mark('prefix-related')
-    if not order[0] and not fail1 and not fail2:
-        ctx.mark('interleaved')
-    return ctx.done(ok, 'interleaved')
+        marks.append('prefix-related')
+    return ok, marks
 
 
+_WORDS = ['a', 'b', 'aa', 'a_', '_a', 'ab', '_']
 _SH = [{'cassette': c, 'explicit': e} for c in ('mem', 'file', 's3') for e in (True, False)]
 CONDITIONS = [
     {'fn': 'routing', 'nontrivial': 'interleaved',
      'what': 'two categories with symbolic texts, explicit id list in any order or lookup-driven, failing tuners, '
              'generators advanced in any interleaving; sharded by (cassette, selection mode)',
-     'tiers': {'quick': {'bounds': {'CL': 2, 'ALPHA': ['a', '_']}, 'timeout': 600, 'shards': _SH,
+     'tiers': {'quick': {'bounds': {'PAIRS': [['a', 'aa'], ['a_', 'a'], ['b', 'a'], ['a', 'a_b']], 'PERMS': [1, 3]}, 'timeout': 600, 'shards': _SH,
                          'witness_shard': {'cassette': 'mem', 'explicit': True}},
-               'thorough': {'bounds': {'CL': 2, 'ALPHA': ['a', 'b', '_']}, 'timeout': 6000, 'shards': _SH,
+               'thorough': {'bounds': {'PAIRS': [[x, y] for x in _WORDS for y in _WORDS if x != y], 'PERMS': [0, 1, 2, 3, 4, 5]},
+                            'timeout': 8000, 'shards': _SH,
                             'witness_shard': {'cassette': 'mem', 'explicit': True}}}},
 ]
